@@ -65,7 +65,7 @@ def _work(args):
     res = RtcResult(prop_id, "drv_sumprod")
     reasons = Counter()
     raw_fails = []
-    for case in chunk:
+    for idx, case in chunk:
         try:
             out = core.check_case(case)
         except Exception as e:  # a crash of the harness itself must be visible, never silent
@@ -78,8 +78,8 @@ def _work(args):
         res.declined += len(out.declined)
         for contract, reason in out.declined:
             reasons[contract + " <- " + reason] += 1
-        for contract, detail, tags in out.fails:
-            raw_fails.append((contract, case, detail, tags))
+        for k, (contract, detail, tags) in enumerate(out.fails):
+            raw_fails.append(((idx, k), contract, case, detail, tags))
     return res, reasons, raw_fails
 
 
@@ -94,7 +94,8 @@ def run(prop_id, tier="quick", seed=0, jobs=16):
     res.exhaustive = exhaustive
     # deterministic chunking: interleave so that expensive neighbours are spread over the workers
     nchunks = max(1, min(len(all_cases), jobs * 8))
-    chunks = [all_cases[i::nchunks] for i in range(nchunks)]
+    indexed = list(enumerate(all_cases))
+    chunks = [indexed[i::nchunks] for i in range(nchunks)]
     work = [(prop_id, c) for c in chunks if c]
     if jobs > 1 and len(work) > 1:
         ctx = mp.get_context("fork")
@@ -108,9 +109,10 @@ def run(prop_id, tier="quick", seed=0, jobs=16):
         res.merge(part)
         reasons.update(r)
         raw_fails += f
+    raw_fails.sort(key=lambda f: f[0])  # enumeration order: the result does not depend on the number of workers
     per_sig = Counter()
     per_contract = Counter()
-    for contract, case, detail, tags in raw_fails:
+    for _, contract, case, detail, tags in raw_fails:
         sig = (contract, tuple(tags))
         per_sig[sig] += 1
         full = per_sig[sig] == 1 and per_contract[contract] < FULL_REPLAYS_PER_CONTRACT
